@@ -114,3 +114,109 @@ Proof.
   destruct (check_attrs_sound _ _ H (attr_decl_canon x) (in_map attr_decl_canon _ _ Hx) present Hv) as [f [_ Hf]].
   exists f. exact Hf.
 Qed.
+
+(* ------------------------------------------------------------------ further instances, by citation of C05 / C06
+   Stated over the generative lexical spaces of Spec/XsdPrims.v and Spec/XsdDates.v (the specifications C05 and C06 are
+   proved against), not over Spec/XsdVal.v's canon functions: every lexical form of the type (with XML white space around
+   it) is accepted by the Python type bound to it, and what the converter writes back is again a lexical form of the type
+   that denotes the same value (and reads back to the same Python value).  The guards are the ones of C05 / C06. *)
+From XV Require Import Base.Dec Base.PyInt Gen.ConvTables Model.ConvInt Model.ConvBytes Model.ConvDecimal Model.ConvGuards Model.Dates Model.DatesCorr
+  Spec.XsdDates Proofs.ConvInt Proofs.ConvBytes Proofs.ConvDecimal Proofs.DatesParse Proofs.DatesFormat.
+
+(* xs:integer and the types derived from it (bound to int) *)
+Theorem not_retyped_integer i a b :
+  wf_integer i = true -> int_sp_in_limit i = true ->
+  forallb xml_ws a = true -> forallb xml_ws b = true ->
+  (int_ndigits (val_integer i) <= int_max_str_digits)%N ->
+  exists out i', int_deser (a ++ lex_integer i ++ b) = Some (val_integer i)
+    /\ int_ser (val_integer i) = Some out
+    /\ wf_integer i' = true /\ lex_integer i' = out /\ val_integer i' = val_integer i
+    /\ int_deser out = Some (val_integer i).
+Proof.
+  intros W L A B N. pose proof (int_ser_defined _ N) as S.
+  destruct (int_ser_valid _ _ S) as [i' [W' [Lx [V' _]]]].
+  exists (py_str_of_Z (val_integer i)), i'.
+  split; [apply int_accepts_xsd; assumption|]. split; [exact S|]. split; [exact W'|]. split; [exact Lx|].
+  split; [exact V'|]. apply int_roundtrip. exact S.
+Qed.
+
+(* xs:decimal (bound to Decimal) *)
+Theorem not_retyped_decimal d a b :
+  wf_decimal d = true -> dec_sp_fits d = true ->
+  forallb xml_ws a = true -> forallb xml_ws b = true ->
+  let v := val_decimal d in
+  let py := DFin (dn_neg v) (dn_coeff v) (dn_exp v) in
+  exists d', dec_deser (a ++ lex_decimal d ++ b) = Some py
+    /\ wf_decimal d' = true /\ lex_decimal d' = dec_ser py
+    /\ decnum_eq (val_decimal d') (mk_decnum (dn_neg v) (dn_coeff v) (dn_exp v)) = true.
+Proof.
+  intros W F A B v py.
+  destruct (dec_ser_valid (dn_neg v) (dn_coeff v) (dn_exp v)) as [d' [W' [Lx E]]].
+  exists d'. split; [apply dec_accepts_xsd; assumption|]. split; [exact W'|]. split; [exact Lx|exact E].
+Qed.
+
+(* xs:hexBinary (bound to bytes, format base16) *)
+Theorem not_retyped_hexBinary k core v a b :
+  xsd_hexBinary core = Some v -> bytes_ok v = true ->
+  forallb xml_ws a = true -> forallb xml_ws b = true ->
+  exists out, bytes_deser (Some bytes_fmt_base16) (a ++ core ++ b) = Some v
+    /\ bytes_ser k (Some bytes_fmt_base16) v = Some out /\ xsd_hexBinary out = Some v.
+Proof.
+  intros X O A B. exists (b16encode v).
+  split; [apply hex_accepts_xsd; assumption|]. split; [|apply hex_ser_valid; exact O].
+  unfold bytes_ser. replace (fmt_is (Some bytes_fmt_base16) bytes_fmt_base16) with true by (vm_compute; reflexivity).
+  rewrite orb_true_r. reflexivity.
+Qed.
+
+(* xs:base64Binary (bound to bytes, format base64) *)
+Theorem not_retyped_base64Binary s v :
+  xsd_base64Binary s = Some v -> bytes_ok v = true ->
+  exists out, bytes_deser (Some bytes_fmt_base64) s = Some v
+    /\ bytes_ser BPlain (Some bytes_fmt_base64) v = Some out /\ xsd_base64Binary out = Some v.
+Proof.
+  intros X O. exists (b64encode v).
+  split; [apply b64_accepts_xsd; exact X|]. split; [vm_compute; reflexivity|apply b64_ser_valid; exact O].
+Qed.
+
+(* xs:date (bound to XmlDate) *)
+Theorem not_retyped_date sp a b :
+  wf_date sp = true -> year_len_ok (ds_year sp) ->
+  forallb xml_ws a = true -> forallb xml_ws b = true ->
+  let v := mk_xdate (val_year (ds_year sp)) (ds_month sp) (ds_day sp) (val_tz (ds_tz sp)) in
+  valid_date_value v = true -> year_fits (d_year v) ->
+  date_from_string (a ++ lex_date sp ++ b) = Some v
+  /\ date_str v = lex_date (canon_date v) /\ wf_date (canon_date v) = true
+  /\ date_from_string (date_str v) = Some v.
+Proof.
+  intros W Y A B v V F. split; [apply date_accepts; assumption|].
+  destruct (date_str_canonical v V) as [E Wc]. split; [exact E|]. split; [exact Wc|]. apply date_roundtrip; assumption.
+Qed.
+
+(* xs:time (bound to XmlTime) *)
+Theorem not_retyped_time sp a b :
+  wf_time sp = true -> forallb xml_ws a = true -> forallb xml_ws b = true ->
+  let v := mk_xtime (ts_hour sp) (ts_minute sp) (ts_second sp) (val_frac (ts_frac sp)) (val_tz (ts_tz sp)) in
+  valid_time_value v = true ->
+  time_from_string (a ++ lex_time sp ++ b) = Some v
+  /\ time_str v = lex_time (canon_time v) /\ wf_time (canon_time v) = true
+  /\ time_from_string (time_str v) = Some v.
+Proof.
+  intros W A B v V. split; [apply time_accepts; assumption|].
+  destruct (time_str_canonical v V) as [E [Wc _]]. split; [exact E|]. split; [exact Wc|]. apply time_roundtrip; assumption.
+Qed.
+
+(* xs:dateTime (bound to XmlDateTime) *)
+Theorem not_retyped_dateTime sp a b :
+  wf_datetime sp = true -> year_len_ok (dts_year sp) ->
+  forallb xml_ws a = true -> forallb xml_ws b = true ->
+  let v := mk_xdatetime (val_year (dts_year sp)) (dts_month sp) (dts_day sp)
+             (dts_hour sp) (dts_minute sp) (dts_second sp) (val_frac (dts_frac sp)) (val_tz (dts_tz sp)) in
+  valid_datetime_value v = true -> year_fits (dt_year v) ->
+  datetime_from_string (a ++ lex_datetime sp ++ b) = Some v
+  /\ datetime_str v = lex_datetime (canon_datetime v) /\ wf_datetime (canon_datetime v) = true
+  /\ datetime_from_string (datetime_str v) = Some v.
+Proof.
+  intros W Y A B v V F. split; [apply datetime_accepts; assumption|].
+  destruct (datetime_str_canonical v V) as [E [Wc _]]. split; [exact E|]. split; [exact Wc|].
+  apply datetime_roundtrip; assumption.
+Qed.
